@@ -116,9 +116,13 @@ def apply(case: dict) -> dict:
         return {"nodes": w.finish(), "parts": plist,
                 "cuts": [{"name": c.name, "sk": c.source_key, "sn": c.source_node, "so": c.source_output,
                           "dk": c.dest_key, "dn": c.dest_node, "di": c.dest_input} for c in cuts]}
-    if op == "expand":
+    if op in ("expand", "expand2"):
+        from earthkit.workflows.graph.rename import join_namespaced
+
         sub, _ = build(case["sub"])
         x = nodes[case["x"] - 1]
+        if case.get("pre") == "ns":          # nodes are renamed in place: x stays the node to expand, now called "ns.<name>"
+            g = join_namespaced(ns=g)
         imap = None if case["imapNone"] else {a: b for a, b in case["imap"]}
         omap = None if case["omapNone"] else {a: b for a, b in case["omap"]}
 
@@ -127,5 +131,13 @@ def apply(case: dict) -> dict:
                 return None
             return sub if (imap is None and omap is None) else (sub, imap, omap)
 
-        return {"g": dump(expand_graph(expander, g))}
+        r1 = expand_graph(expander, g)
+        if op == "expand":
+            return {"g": dump(r1)}
+        d1 = dump(r1)                        # dumped before the second expansion (which renames / rewires in place)
+        sub2, _ = build(case["sub2"])
+        x2name = f"{x.name}.{case['x2']}"    # the documented name of the spliced node
+        imap2 = None if case["imap2None"] else {a: b for a, b in case["imap2"]}
+        omap2 = None if case["omap2None"] else {a: b for a, b in case["omap2"]}
+        return {"g": d1, "g2": dump(expand_graph(lambda n: (sub2, imap2, omap2) if n.name == x2name else None, r1))}
     raise ValueError(op)
